@@ -126,6 +126,26 @@ impl Check for Fixpoint {
     }
 }
 
+/// called by the watchdog for a case of part fixpoint that has been running for two minutes in-process:
+/// the same simplification through the real binary with a limit of 60 s; Some(message) if that run does
+/// not finish either
+pub fn confirm_nontermination(case_json: &str) -> Option<String> {
+    let j: Value = serde_json::from_str(case_json).ok()?;
+    let case = Fixpoint.from_replay(&j)?;
+    let f = case.source.formula()?;
+    let portfolio = ops::PORTFOLIOS[case.portfolio];
+    let text = format!("{}.\n", safe_print::formula(&f, &Style::plain()));
+    let bin = cli::anthem_bin()?;
+    let r = cli::run_env(&bin, &["simplify", "--portfolio", portfolio, "--strategy", "fixpoint"], Some(&text), &[], std::time::Duration::from_secs(60));
+    if r.timed_out {
+        Some(format!(
+            "C18: `anthem simplify --portfolio {portfolio} --strategy fixpoint` does not finish within 60 s (and not within two minutes in-process) on\n  {text}"
+        ))
+    } else {
+        None
+    }
+}
+
 // ---------------------------------------------------------------------------------------
 // determinism across fresh processes
 
